@@ -31,7 +31,7 @@ both succeed with EQUAL `states`, EQUAL `num_states`, the SAME mapper table and 
 Outside: the translators (tools/top2lean.py, map2lean.py, nfa2lean.py, dbl2lean.py, rs2lean.py) and their
 preludes (meaning of `Vec`, `BTreeMap`, `RefCell`, `IntoIterator` = list, `AsRef<str>` + `chars()` = the list
 of scalar values, `for_each(push)` = append, integer conversions, `MatchKind` = its byte, `CodeMapper` =
-the two-field record), and `build` (the index-assigning wrapper around `build_with_values`).
+the two-field record).  `build` (the index-assigning wrapper around `build_with_values`): Props/TieTopBuild.lean.
 -/
 import Daac.Proofs.TieTopC
 import Daac.Proofs.Utf8
